@@ -374,13 +374,17 @@ func ruleSetErrorNonNil(rule string) ruleFn {
 		c.Doc(rule, "every call of rpc.Client.SetError passes an error that is non-nil at the call: a sentinel (ErrRWTimeout / ErrPingTimeout, or a merge of them), a constructed error, or a value behind its own non-nil test; a value looked up in a table (nil for a missing row) turns a deadline that ran out into a success")
 		n := 0
 		for _, fn := range prodFns(c.P) {
-			for _, in := range AnyCallsTo(fn, fCli+"SetError") {
+			for _, in := range AnyCallsTo(fn, fCli+"SetError", "invoke:SetError") {
 				ci, ok := in.(ssa.CallInstruction)
-				if !ok || len(ci.Common().Args) < 2 {
+				if !ok || len(ci.Common().Args) < 1 {
+					continue
+				}
+				// (through an interface in front of the client the receiver is not an argument)
+				v := ci.Common().Args[len(ci.Common().Args)-1]
+				if v.Type().String() != "error" {
 					continue
 				}
 				n++
-				v := ci.Common().Args[1]
 				key := fmt.Sprintf("%s | SetError is handed a non-nil error", FnName(fn))
 				if nonNilAt(v, in.Block()) || nonNilMerge(v, in.Block(), 0) {
 					c.OK(rule, key, c.P.InstrPos(in), NewRenderer(fn).V(v), false)
